@@ -14,7 +14,11 @@ c=d.get('check') or (sorted(d.get('checks',{}).keys())[0] if d.get('checks') els
 c=c.replace('./check ','').split()[0]
 print(c if c.startswith('C') else m['property'])")
   out=$(tools/mutant_ns.sh $d/patch.diff $chk 2>&1 | tail -1)
-  echo "$n -> $chk $out"
+  note=$(python3 -c "
+import json
+m=json.load(open('$d/meta.json'))
+print('(recorded as: ' + m['detected_by']['result_class'] + ')' if 'result_class' in m.get('detected_by',{}) else '')")
+  echo "$n -> $chk $out $note"
 }
 export -f one
 ls -d seeded/*/ | xargs -P $jobs -I{} bash -c 'one {}'
